@@ -346,7 +346,12 @@ def run_history(
             # the server may still be finishing the call (e.g. draining a rejected stream's input): synchronise
             # with its serve loop before judging, so a verdict never depends on thread timing.
             facts["barriers"] += 1
-            link.barrier()
+            try:
+                link.barrier()
+            except (OSError, EOFError, pa.ArrowException) as e:
+                # the describe round trip itself cannot be read: the connection is out of step with the server
+                problems.append((f"connection_desynchronised/{tag}", f"{what}: barrier round trip failed with {type(e).__name__}: {str(e)[:160]}"))
+                raise _Desync() from e
             got = link.allocs()
         if got > want:
             problems.append(
@@ -374,10 +379,20 @@ def run_history(
 
         RT.HOOKS[run_id] = probe
     try:
-        return _run_history(link, protocol, spec, raw, policy, run_id, holder, obs_list, problems, facts, settle)
+        try:
+            return _run_history(link, protocol, spec, raw, policy, run_id, holder, obs_list, problems, facts, settle)
+        except _Desync:
+            facts.setdefault("aborted_at", len(obs_list))
+            facts.update(n_shm_batches=holder.n_shm, max_live_shm=holder.max_live_shm, n_writes=getattr(link.seg, "n_writes", 0) if shm else 0,
+                         n_frees=getattr(link.seg, "n_frees", 0) if shm else 0)
+            return {"obs": obs_list, "problems": problems + holder.problems, "facts": facts, "events": list(RT.INVOCATIONS.get(run_id, []))}
     finally:
         RT.HOOKS.pop(run_id, None)
         _drop_skew(run_id)
+
+
+class _Desync(Exception):
+    """The connection can no longer be used; the history ends (the finding is already in ``problems``)."""
 
 
 _SKEW: dict[tuple[str, int], Any] = {}
@@ -526,6 +541,15 @@ def _run_history(
                         session.close()
         except RpcError as e:
             obs["error"] = {"type": e.error_type, "message": e.error_message}
+        except (OSError, EOFError, StopIteration, pa.ArrowException) as e:
+            # the client could not even parse what arrived (pyarrow refusing the bytes it was handed): the transfer is
+            # not transparent, and the connection cannot be trusted any further — report and end the history here
+            obs["error"] = {"type": f"client-side {type(e).__name__}", "message": str(e)[:200]}
+            obs["logs"] = [transports.norm_log(x) for x in link.logs[n0:]]
+            obs_list.append(obs)
+            problems.append((f"client_cannot_read/{kind}", f"call#{ci} ({kind} {m['name']}): {type(e).__name__}: {str(e)[:200]}"))
+            facts["aborted_at"] = ci
+            break
         if obs["error"] is not None:
             init_failed = kind != "unary" and m["init"]["action"]["op"] != "ok"
             outcome = "init_error" if init_failed else "error"
